@@ -3,7 +3,10 @@ import json, jsonschema, glob, sys
 jsonschema.validate(json.load(open('/verif/MANIFEST.json')), json.load(open('/root/.vp/MANIFEST.schema.json')))
 es = json.load(open('/root/.vp/EVIDENCE.schema.json'))
 bad = 0
+claimed={c['property_id'] for c in json.load(open('/verif/MANIFEST.json'))['checks']}
 for f in sorted(glob.glob('/verif/evidence/*.json')):
+    import os
+    if os.path.basename(f)[:-5] not in claimed: continue
     try:
         jsonschema.validate(json.load(open(f)), es)
     except Exception as e:
